@@ -152,7 +152,7 @@ class Rolling:
         prog.append(dict(op='merge_states', accs=list(op[1])))
       else:
         prog.append(dict(op='result', acc=op[1]))
-    return dict(metric=sp['metric'], cfg=sp['cfg'], api=sp['api'], prog=prog)
+    return dict(metric=sp['metric'], cfg=sp['cfg'], api=sp['api'], prog=prog, container=sp.get('container'))
 
   @classmethod
   def run(cls, sp, ops):
@@ -218,17 +218,20 @@ class Retrieval:
     return [r for b in bs for r in b]
 
   @staticmethod
-  def native(sp, ops):
+  def native(sp, ops, impl=False):
+    # impl=True (SC11): the real code gets ONE merge_states call for every kind (ThresholdedRetrieval / MeanState /
+    # TupleMeanState through base.as_agg_fn); the model drivers of those kinds get its left fold
     prog = []
     for op in ops:
       k = op[0]
       if k == 'read':
         prog.append(['result', op[1]])
-      elif k == 'merge_states' and not (sp['kind'] == 'topk' and sp['api'] == 'aggfn'):
+      elif k == 'merge_states' and not (sp['kind'] == 'topk' and sp['api'] == 'aggfn') and not \
+          (impl and sp.get('ms_call')):
         prog += [['merge', op[1][0], j] for j in op[1][1:]]
       else:
         prog.append(list(op))
-    case = dict(kind=sp['kind'], api=sp['api'], prog=prog)
+    case = dict(kind=sp['kind'], api=sp['api'], prog=prog, container=sp.get('container'))
     if sp['kind'] == 'topk':
       case['cfg'] = sp['cfg']
     elif sp['kind'] == 'thr':
@@ -255,7 +258,7 @@ class Retrieval:
 
   @classmethod
   def run(cls, sp, ops):
-    case = cls.native(sp, ops)
+    case = cls.native(sp, ops, impl=True)
     return cls._reads(sp['kind'], case['prog'], RT.run_impl(case))
 
   @classmethod
@@ -313,7 +316,7 @@ class Text:
         prog.append(['result', op[1]])
       else:
         prog.append(list(op))
-    return dict(kind='prog', metric=sp['metric'], cfg=sp['cfg'], api=sp['api'], prog=prog)
+    return dict(kind='prog', metric=sp['metric'], cfg=sp['cfg'], api=sp['api'], prog=prog, container=sp.get('container'))
 
   @classmethod
   def run(cls, sp, ops):
@@ -446,7 +449,8 @@ class Classification:
               accs[op[1]].merge(accs[op[2]])
           elif k == 'merge_states':
             if fn:
-              accs[op[1][0]] = fn.merge_states([accs[i] for i in op[1]])
+              from harness.lib_states import pack   # sp['container']: list (default) / tuple / generator / ... (SC11)
+              accs[op[1][0]] = fn.merge_states(pack([accs[i] for i in op[1]], sp.get('container')))
             else:
               for j in op[1][1:]:
                 accs[op[1][0]].merge(accs[j])
